@@ -60,4 +60,16 @@ META["C11"] = dict(
         "independently and Trace_WireOrder.tla decides at the wire only.",
    technique="TLA+ spec (WritePath.tla) + TLC exhaustive MC + every TLC schedule replayed via scheduling hooks + TLC trace validation",
    design_ref="DESIGN.md 3/C11")
+META["C09"] = dict(
+   text="SessionLife.tla models the close protocol at the granularity of the code's critical sections (flag swap, table drain, FIFO "
+        "writer mutex, shutdown) for a writer task and a closing task (owner, receive task on EOF / read error / Alert, liveness "
+        "monitor, the writer itself after a write error, owner close behind a blocked write). TLC checks under weak fairness that "
+        "after any cause the session is eventually and permanently closed, shut down, its reader released, its pending open "
+        "resolved and the concurrent write returned; three named deviations of the pinned code must each violate it. Every "
+        "complete schedule of the model and a systematic cause x role x fault-offset x scheme sweep are replayed on real Sessions "
+        "(scheduling hooks + fault-injecting transport + virtual time); after one virtual hour the harness reports what became of "
+        "every operation and Trace_SessionLife.tla accepts only 'closed, shut down, reader ended, open failed, writer and closer "
+        "returned, later write/open fail, nothing pending'.",
+   technique="TLA+ spec (SessionLife.tla, liveness under fairness) + TLC MC + schedules and fault sweep replayed via hooks/SimPipe + TLC trace validation",
+   design_ref="DESIGN.md 3/C09")
 NOT_YET = "check not built yet in this round (planned: DESIGN.md section 3); not claimed"
